@@ -58,6 +58,7 @@ func (s *Stats) Merge(o *Stats) {
 }
 
 type World struct {
+	failedAttemptState string // C16: ledger digest right after a deterministic commit that was rejected by an encoder failure
 	Cfg     Config
 	Ledger  *SimLedger
 	Storage *atree.PersistentSlabStorage
